@@ -2380,7 +2380,7 @@ func (p *Path) FieldStores(cell ssa.Value) map[string]*Term {
 		if fa.X != cell {
 			// the same record reached through a pointer parameter or captured variable of a spliced helper
 			at := c.term(fa.X)
-			if at == nil || at.Op != "alloc" || at.Val != cell {
+			if at == nil || (at.Op != "alloc" && at.Op != "param") || at.Val != cell {
 				return
 			}
 		}
